@@ -18,6 +18,7 @@ import (
 	"time"
 
 	"github.com/fiorix/go-diameter/diam"
+	"github.com/fiorix/go-diameter/diam/dict"
 	"github.com/gin-gonic/gin"
 	"github.com/h2non/gock"
 	"github.com/sirupsen/logrus"
@@ -89,6 +90,7 @@ type World struct {
 }
 
 var (
+	pristineDict *dict.Parser
 	bootOnce sync.Once
 	hookOnce sync.Once
 	curWorld atomic.Pointer[World]
@@ -175,7 +177,10 @@ func Boot(sc *Scenario) (*World, error) {
 	bootOnce.Do(func() {
 		gin.SetMode(gin.ReleaseMode)
 		openapi.InterceptH2CClient()
+		pristineDict = dict.Default.SimClone()
 	})
+	// every run starts with the dictionaries of a freshly started process
+	dict.Default = pristineDict.SimClone()
 	logger.Log.SetLevel(logrus.ErrorLevel)
 	logger.Log.SetOutput(io.Discard)
 
@@ -211,6 +216,7 @@ func Boot(sc *Scenario) (*World, error) {
 	diam.SimDial = w.Net.Dial
 	diam.SimListen = w.Net.Listen
 	diam.SimLockWait = rt.LockWait
+	diam.SimBarrier = rt.Barrier
 	diam.SimRand = w.nextID
 
 	for _, a := range sc.Accounts {
